@@ -118,7 +118,11 @@ namespace smt
 
   private:
 #ifdef PARALLELIZE
+#ifdef ORATIO_VERIF
+    thread_pool th_pool{verif::pool_size()};
+#else
     thread_pool th_pool;
+#endif
 #endif
 
     std::vector<constr *> constrs;              // the collection of problem constraints..
